@@ -199,7 +199,9 @@ CHECKS["C05"] = dict(
     text="For every tuple of 1..2 (quick) / 3 (thorough) recognised keys in any order with symbolic numeric values: encode(parse(bytes)) = bytes, "
          "parse(encode(h)) = h, hdrlen = bytes consumed, datalen = file length - hdrlen. edit_header for every recognised key (and an unknown "
          "one) with symbolic/shorter/longer values: either only that key's value bytes change at constant length, or it raises with nothing "
-         "written. from_sigproc maps the (pulsarcentric, barycentric) flags written by to_sigproc back to the same frame. parse_radec: for every "
+         "written. from_sigproc maps the (pulsarcentric, barycentric) flags written by to_sigproc back to the same frame; to_sigproc followed by from_sigproc "
+         "returns every physical field (channelisation, sampling, epoch, depth, beams, DM, pointing angles as symbolic values; telescope/backend through every id of the tables, "
+         "unknown names as Fake/FAKE; source, raw file, frame, data type, coordinate arguments) to the field it came from. parse_radec: for every "
          "DDMMSS.S/HHMMSS.S the sexagesimal string it builds decodes to the same magnitude and to the sign of src_dej, including 0 > dec > -1 deg.",
     note="struct pack/unpack and astropy's sexagesimal parser are trusted stubs; string values from a small alphabet; 0.01-arcsec astropy accuracy outside.",
     design="DESIGN.md section 4 (C05)")
